@@ -20,7 +20,8 @@ func templateFor(verifDir, fn string) string {
 	if strings.HasPrefix(fn, "lemma M-") {
 		return filepath.Join(verifDir, "replay", "lemma_M.tmpl")
 	}
-	return filepath.Join(verifDir, "replay", reFile.ReplaceAllString(fn, "_")+".tmpl")
+	p := filepath.Join(verifDir, "replay", reFile.ReplaceAllString(fn, "_")+".tmpl")
+	return p
 }
 
 func tryReplay(verifDir, repo, prop, fn string, o ObReport, payload map[string]interface{}) bool {
